@@ -412,6 +412,40 @@ func runC13(r *Run) {
 		r.atLeast("keyed store accesses in the handlers", n, 4)
 	})
 
+	r.rule("R14", "a request's outcome is judged by what the client will get: where a handler decides whether the request failed (a status compared with 400, behind SkipSuccessfulRequests / SkipFailedRequests), the status takes the error c.Next() returned into account — a handler that fails by returning an error still has status 200 at that point, the error handler runs later (E3)", func() {
+		n := 0
+		for _, name := range []string{"FixedWindow", "SlidingWindow"} {
+			h := limiterHandlers(r)[name]
+			nexts := callsMatching(h, false, isNext)
+			r.need(len(nexts) >= 1, name+" calls c.Next()")
+			isErr := func(x ssa.Value) bool {
+				for _, nx := range nexts {
+					if x == nx.Value() {
+						return true
+					}
+				}
+				return false
+			}
+			k := 0
+			for _, in := range instrsWhere(h, func(in ssa.Instruction) bool {
+				bo, ok := in.(*ssa.BinOp)
+				return ok && (isConstInt(bo.X, 400) || isConstInt(bo.Y, 400))
+			}) {
+				bo := in.(*ssa.BinOp)
+				status := bo.X
+				if isConstInt(bo.X, 400) {
+					status = bo.Y
+				}
+				n++
+				k++
+				r.check(dependsOn(status, isErr) != nil, fmt.Sprintf("%s:outcome#%d:counts-a-returned-error", name, k), r.pos(in), "the status compared with 400 is derived from the error c.Next() returned as well",
+					"the limiter judges a request by the response status alone: a handler that returns an error (fiber.ErrUnauthorized) still has status 200 when the limiter looks, so with SkipSuccessfulRequests failed attempts are refunded — a login route is never limited — and with SkipFailedRequests they are charged")
+			}
+			r.check(k > 0, name+":outcome:classified", r.fpos(h), "the handler compares a status with 400 to tell failed from successful requests", "no outcome classification found in "+name+" (the Skip options have nothing to go by)")
+		}
+		r.atLeast("outcome classifications in the handlers", n, 2)
+	})
+
 	r.rule("R10", "the sliding window keeps an entry into the next window: every manager.set of its handler uses a lifetime that includes the time left in the current window (E5)", func() {
 		h := limiterHandlers(r)["SlidingWindow"]
 		n := 0
